@@ -259,6 +259,33 @@ func c01SubsetOrdered(t *rapid.T, label string, from []string, max int) []string
 	return out
 }
 
+// c01ProfileList draws an endpoint's ProfileIDs list: up to max entries, NOT de-duplicated (nothing
+// upstream de-duplicates that list), with an explicit bias towards naming the same ID twice.
+func c01ProfileList(t *rapid.T, label string, from []string, max int) []string {
+	n := rapid.IntRange(0, max).Draw(t, label+".n")
+	var out []string
+	for i := 0; i < n; i++ {
+		l := fmt.Sprintf("%s[%d]", label, i)
+		if i > 0 && rapid.IntRange(0, 3).Draw(t, l+".repeat") == 3 {
+			out = append(out, out[rapid.IntRange(0, i-1).Draw(t, l+".repeatOf")])
+			continue
+		}
+		out = append(out, rapid.SampledFrom(from).Draw(t, l))
+	}
+	return out
+}
+
+func c01HasRepeat(list []string) bool {
+	seen := map[string]bool{}
+	for _, s := range list {
+		if seen[s] {
+			return true
+		}
+		seen[s] = true
+	}
+	return false
+}
+
 func c01Nets(strs []string, bits string) []calinet.IPNet {
 	var out []calinet.IPNet
 	for _, s := range strs {
@@ -540,7 +567,7 @@ func c01GenWEP(ifacePrefix string, host string) func(t *rapid.T, u *c01Universe,
 	return func(t *rapid.T, u *c01Universe, label string) c01Ver {
 		local := host == c01Local
 		name := ifacePrefix
-		profiles := c01SubsetOrdered(t, label+".profiles", c01ProfileIDs, 3)
+		profiles := c01ProfileList(t, label+".profiles", c01ProfileIDs, 3)
 		v4 := c01SubsetOrdered(t, label+".v4", c01V4Addrs, 2)
 		if local && u.SteerBlocks {
 			// Same draws, remapped position-wise to addresses outside the block CIDRs.
@@ -617,7 +644,7 @@ func c01GenWEP(ifacePrefix string, host string) func(t *rapid.T, u *c01Universe,
 
 func c01GenHEP(t *rapid.T, u *c01Universe, label string) c01Ver {
 	name := rapid.SampledFrom([]string{"eth0", "eth1", "", "*"}).Draw(t, label+".iface")
-	profiles := c01SubsetOrdered(t, label+".profiles", c01ProfileIDs, 2)
+	profiles := c01ProfileList(t, label+".profiles", c01ProfileIDs, 3)
 	v4 := c01SubsetOrdered(t, label+".v4", c01V4Addrs, 2)
 	v6 := c01SubsetOrdered(t, label+".v6", c01V6Addrs, 1)
 	labels := c01Labels(t, label)
